@@ -579,33 +579,6 @@ def blocks_of(p):
             yield s[3]
 
 
-def _bare_test(t):
-    return t[0] == "U"       # a call used as a condition: its value need not be a bool
-
-
-def _sig_truthiness_value_return(case):
-    """`if c: return True / return False` with a condition that is not syntactically boolean, and the behaviours
-    differ only when an opaque condition returns a non-bool (no difference under boolean-only scripts)"""
-    p = case["program"]
-    site = any(b[i][0] == "if" and _bare_test(b[i][1]) and b[i][2] == [("ret", ("V", B(True)))] and not b[i][3]
-               and b[i + 1] == ("ret", ("V", B(False)))
-               for b in blocks_of(p) for i in range(len(b) - 1))
-    return site and oracle_differs(p, case["result"], 4, vals=(B(True), B(False))) is None
-
-
-def _sig_truthiness_value_assign(case):
-    p = case["program"]
-    site = any(s[0] == "if" and _bare_test(s[1]) and len(s[2]) == 1 and len(s[3]) == 1
-               and s[2][0][0] == "asg" and s[3][0][0] == "asg" and s[2][0][1] == s[3][0][1]
-               and s[2][0][2] == ("V", B(True)) and s[3][0][2] == ("V", B(False)) for s in M.walk(p))
-    return site and oracle_differs(p, case["result"], 4, vals=(B(True), B(False))) is None
-
-
-def _sig_bool_coercion_dropped(case):
-    return (_sig_truthiness_value_return(case) if case["rule"] == "fixes.fix_if_return"
-            else _sig_truthiness_value_assign(case) if case["rule"] == "fixes.fix_if_assign" else False)
-
-
 def _first_leaves(s):
     """fixes._all_branches(..., expand_ifs_on="start"); None = IndexError"""
     if s[0] != "if":
@@ -670,22 +643,14 @@ def _sig_hoist_zero_iterations(case):
                for s in M.walk(case["program"]))
 
 
-def _sig_hoist_reassigned(case):
-    """the hoisted variable is assigned again later in the same loop body: from the second iteration on the loop
-    body starts with the later value"""
-    for s in M.walk(case["program"]):
-        if s[0] in ("while", "for"):
-            for i, x in enumerate(s[2]):
-                if _plain_assign(x) and any(y[0] == "asg" and y[1] == x[1] for y in s[2][i + 1:]):
-                    return True
-    return False
-
-
 # keyed by the same sig names as the sweep's predicates (harness/c02_sweep.py): one finding line per root cause
-SIGS: dict = {"bool_coercion_dropped": _sig_bool_coercion_dropped,
-              "common_stmt_hoisted_over_test": _sig_common_stmt_hoisted_over_test,
-              "hoist_out_of_zero_iteration_loop": _sig_hoist_zero_iterations,
-              "hoist_reassigned_variable": _sig_hoist_reassigned}
+# (the predicates of F02-21 `bool_coercion_dropped` and F02-11 `hoist_reassigned_variable` went away with the repairs
+# 4486780 / d47dff7: such a difference is a VIOLATION again)
+SIGS: dict = {"common_stmt_hoisted_over_test": _sig_common_stmt_hoisted_over_test,
+              "hoist_out_of_zero_iteration_loop": _sig_hoist_zero_iterations}
+
+
+live_findings = c02_sweep.live_findings
 
 
 def match_finding(kf, case):
@@ -719,7 +684,7 @@ def check(run: common.Run):
     rnd = random.Random(run.seed)
     quick = run.tier == "quick"
     hist = Counter()
-    kf = common.load_findings(PID)
+    kf = live_findings()
     t0 = time.time()
 
     # ---- program families
